@@ -36,6 +36,7 @@ def run(facts, rep):
     d5_handler_task_picked_up(facts, rep)
     d1_batch_flags_only_raised(facts, rep)
     d1_handlers(facts, rep)
+    d1_handler_survives_user_exceptions(facts, rep)
     d2_serial(facts, rep)
     d3_concurrency(facts, rep)
     d4_rejected(facts, rep)
@@ -755,3 +756,48 @@ def d5_handler_task_picked_up(facts, rep):
                    ln=node['ln'], key_extra='ltask|%s' % fn.p)
     if n < 6:
         raise AnalysisBroken('buffer_node: submitters of aggregator operations: %d found, at least 6 expected' % n)
+
+
+def d1_handler_survives_user_exceptions(facts, rep):
+    """Every buffering / limiting / joining node funnels its operations through an aggregator: the thread that finds the
+    pending list empty becomes the handler, raises handler_busy, runs the node's handle_operations on the whole batch and
+    lowers handler_busy.  The handlers copy user data (a message put into a queue_node or queued in front of a busy
+    function_node is copied inside the handler).  If such a copy throws, the exception leaves the handler: handler_busy is
+    never lowered and the other operations of the batch never get a status - every later operation on the node spins for ever
+    (no message is forwarded any more, wait_for_all does not return).  Rule: where the handler of an instantiation can raise a
+    user exception, start_handle_operations lowers handler_busy on the exceptional path as well (exit_coverage)."""
+    from rules.common import MayThrow, exit_coverage
+    from engine.rules import Summaries
+    mt = MayThrow(facts, external_may_throw=False)
+    summ = Summaries(facts, max_depth=2)
+    fs = facts.get('tbb::detail::d1::aggregator_generic::start_handle_operations')
+
+    def lowers(g, pos, e):
+        if not isinstance(e, int):
+            return False
+        op = atomic_op(g, e)
+        return bool(op and op['kind'] == 'store' and last_member(g, op['obj']) == 'handler_busy' and g.cv(op.get('val', -1)) == 0)
+    n = nthrow = 0
+    ok_all = True
+    examples = []
+    anchor = None
+    for fn in fs:
+        def throwing_handler(g, pos, e):
+            return isinstance(e, int) and g.nodes[e].get('k') == 'call' and g.nodes[e].get('op') == '()' and mt.node(g, e)
+        n += 1
+        nops, normal_ok, exc_ok, notes = exit_coverage(facts, summ, fn, throwing_handler, lowers, 'lowers-handler-busy')
+        if not nops:
+            continue
+        nthrow += 1
+        anchor = anchor or fn
+        if not exc_ok:
+            ok_all = False
+            examples.append(fn.q.split('aggregating_functor<')[-1].split(',')[0][:60])
+    if n < 6:
+        raise AnalysisBroken('aggregator_generic::start_handle_operations: %d instantiations in the flow graph driver (expected >= 6)' % n)
+    if nthrow == 0:
+        raise AnalysisBroken('no flow graph aggregator handler can raise a user exception: the may-throw analysis lost the message copies')
+    rep.ob('D1', 'K9', anchor, 'a user exception raised inside an aggregator handler does not leave handler_busy set', ok_all,
+           '%d of %d handler instantiations copy user data outside any try block (%s ...) and start_handle_operations lowers handler_busy only on '
+           'the normal path: when the copy of a message throws inside the handler, every later operation on that node spins for ever'
+           % (len(examples), n, ', '.join(sorted(set(examples))[:3])), key_extra='handler-busy')
